@@ -1350,6 +1350,7 @@ func (f *frame) parallelize(at ssa.Instruction, c *ssa.CallCommon, args []T, st 
 	e.assume(implies(st.cond, and("(= (slen "+res.S+") "+count.S+")", "(not (= (sarr "+res.S+") 0))")))
 	var dyn types.Type
 	uniform := true
+	hasNil := false
 	for _, b := range fn.Blocks {
 		for _, ins := range b.Instrs {
 			if r, ok := ins.(*ssa.Return); ok && len(r.Results) == 1 {
@@ -1360,6 +1361,11 @@ func (f *frame) parallelize(at ssa.Instruction, c *ssa.CallCommon, args []T, st 
 				case *ssa.ChangeInterface:
 					// a value of interface type I converted to interface{}: nil, or a dynamic type implementing I
 					t = x.X.Type()
+				case *ssa.Const:
+					if x.IsNil() {
+						hasNil = true
+						continue
+					}
 				}
 				if t == nil || (dyn != nil && !types.Identical(dyn, t)) {
 					uniform = false
@@ -1373,7 +1379,7 @@ func (f *frame) parallelize(at ssa.Instruction, c *ssa.CallCommon, args []T, st 
 		h, hs := f.elemHeap(rt.Underlying().(*types.Slice).Elem())
 		el := "(select (select " + e.H(st, h, hs) + " (sarr " + res.S + ")) ppos)"
 		fact := f.hasType(el, dyn)
-		if _, isI := dyn.Underlying().(*types.Interface); isI {
+		if _, isI := dyn.Underlying().(*types.Interface); isI || hasNil {
 			fact = "(or (= (ityp " + el + ") 0) " + fact + ")"
 		}
 		e.assume(implies(st.cond, "(forall ((ppos Int)) (=> (and (<= (soff "+res.S+") ppos) (< ppos (+ (soff "+res.S+") (slen "+res.S+")))) "+fact+"))"))
